@@ -453,6 +453,28 @@ func (e *Exec) model(s *State, c *ssa.Call, fn *ssa.Function, full string, args 
 		// an unknown string, a function of the arguments; nothing says it equals
 		// its argument
 		return ret(atom(pureAtomName(full[strings.LastIndex(full, ".")+1:], []string{t.String(), textArg(args[1]).String()})))
+	case "sort.Strings":
+		sl, ok := args[0].(SliceV)
+		if !ok {
+			unsupported("sort.Strings on %T", args[0])
+		}
+		if sl.Len_ <= 1 {
+			return ret()
+		}
+		var strs []string
+		for k := 0; k < sl.Len_; k++ {
+			t, isT := s.load(sl.Arr.sub(sl.Lo + k)).(Text)
+			cs, isC := t.concrete()
+			if !isT || !isC {
+				unsupported("sort.Strings of unknown strings")
+			}
+			strs = append(strs, cs)
+		}
+		sort.Strings(strs)
+		for k, x := range strs {
+			s.store(sl.Arr.sub(sl.Lo+k), lit(x))
+		}
+		return ret()
 	case "slices.Contains":
 		sl, ok := args[0].(SliceV)
 		if !ok {
